@@ -13,14 +13,19 @@ from exact import spec_solution
 
 RULE = ('cases = (circuit, w_max): random RLC circuits (<=4 nodes) with a mix of DC, sinusoidal and periodic sources; source '
         'frequencies drawn so that some coincide exactly, some coincide only up to rounding (0.3 vs 3*0.1) and some are '
-        'unrelated; w_max between harmonics.  Checked: frequency_components vs the model\'s exact list (Coq) and vs the declared '
+        'unrelated; w_max between harmonics; plus a stream of periodic sources with fundamentals that are not exactly representable (0.1, 0.7, 100*pi, 1/3, ...) and w_max on / next to '
+        'a rounded multiple k*w0, compared BIT FOR BIT with the binary64 instance of the model function (Model/FreqFloat.v, vm_compute).  Checked: frequency_components vs the model\'s exact list (Coq) and vs the declared '
         'set (sorted, each source frequency and harmonic k*w0 <= w_max once, no two entries within the frequency resolution); '
         'every spectral line of FrequencyDomainSolution (one- and two-sided) vs the model\'s ComplexSolution(w_k, peak) and vs an '
         'independent exact phasor tableau; TimeDomainSolution.get_*(id)(t) at random instants vs sum_k |X_k| cos(w_k t + arg X_k); '
-        'KCL at random instants; sum of the time functions with each source alone.  distinct = distinct (canonical circuit, '
+        'KCL at instants in the first periods, at negative times and up to 40 periods of the slowest line away; sum of the time functions with each source alone.  distinct = distinct (canonical circuit, '
         'w_max); non-trivial = >= 2 analysed frequencies and every single-frequency network well-posed')
 
-TRUSTED = c07.TRUSTED + ['numpy.linalg.solve backward stable; np.abs/np.angle/np.cos as a polar decomposition X = |X| cis(arg X)']
+TRUSTED = c07.TRUSTED + ['numpy.linalg.solve backward stable; np.abs/np.angle/np.cos as a polar decomposition X = |X| cis(arg X)',
+                        'binary64 instance of frequency_components (Model/FreqFloat.v): Coq primitive floats and 63-bit integers (kernel primitives '
+                        'PrimFloat.*, PrimInt63.*: listed by Print Assumptions, implemented by the kernel / vm_compute on the host FPU), evaluated by '
+                        'coqc on a generated cases file and compared bit for bit with circuit.py; the printed decimal form of a float is parsed back '
+                        'with Python float()']
 RES = 1e-3
 
 
@@ -90,7 +95,7 @@ def lossy_multi(case, ws):
     return False
 
 
-def examine(ctx, cases):
+def examine(ctx, cases, n_near=0):
     fjobs, impl_lists, built = [], [], []
     for case, wmax in cases:
         try:
@@ -107,6 +112,16 @@ def examine(ctx, cases):
             impl_lists.append({'exc': type(e).__name__})
         fjobs.append((case, comps, wmax))
     mlists = iter(circrun.model_frequencies(fjobs))
+    # bit-exact run of the same generic model function at binary64 (Model/FreqFloat.v), incl. a stream of w_max values on and next to
+    # rounded multiples of fundamentals that are not exactly representable
+    import freqfloat
+    fj, it = [], iter(fjobs)
+    for k, (case, wmax) in enumerate(cases):
+        if built[k] is None:
+            continue
+        _, comps, _ = next(it)
+        fj.append((built[k][0].components, wmax, impl_lists[k].get('ws'), {'circuit': case, 'w_max': wmax}))
+    freqfloat.correspond(ctx, fj, random.Random(ctx.seed + 909), n_near)
     line_jobs, line_ix = [], []
     for k, (case, wmax) in enumerate(cases):
         ctx.evaluations += 1
@@ -290,7 +305,7 @@ def run(ctx):
     if standard_prologue(ctx):
         rng = random.Random(ctx.seed + 9)
         n = 120 if ctx.tier == "quick" else 1500
-        examine(ctx, [gen_case(rng) for _ in range(n)])
+        examine(ctx, [gen_case(rng) for _ in range(n)], n_near=150 if ctx.tier == 'quick' else 4000)
     return RULE
 
 
